@@ -109,6 +109,10 @@ func refVars(owner string, site string, r Ref) string {
 		kv = append(kv, "VP: "+q("{{.VP}}>"+owner+"."+site))
 	}
 	for _, v := range r.Vars {
+		if strings.HasPrefix(v[1], "RAW:") { // a YAML scalar that is not a string (3, false)
+			kv = append(kv, v[0]+": "+strings.TrimPrefix(v[1], "RAW:"))
+			continue
+		}
 		kv = append(kv, v[0]+": "+q(v[1]))
 	}
 	for _, v := range r.ListVars {
